@@ -227,14 +227,16 @@ def correspond(run, corr):
 
     samples = []
     # each side is a tie of its own: a side whose harness cannot run is recorded, the other side still runs
-    for side in (correspond_py, correspond_fw):
+    for side in (correspond_py, correspond_seq, correspond_fw):
         try:
-            samples += side(run, corr, rng, n_py if side is correspond_py else n_fw)
+            samples += side(run, corr, rng, {correspond_py: n_py, correspond_seq: n_py // 8, correspond_fw: n_fw}[side])
         except vf.HarnessError as e:
             corr.harness_errors.append(str(e)[-1500:])
     corr.rule = ("Python: HoppingParams(hsn, maio, ma).resolve(fn) and Transceiver.enable_fh/get_rx_freq/get_tx_freq with hsn, maio, "
                  "|MA| each at lo-1, lo, lo+1, mid, hi-1, hi, hi+1 and far outside (negative, > 63, |MA| 0 and > 64 .. 255), fn on the "
                  "26/51/1326/84864/hyperframe lattice, random, and beyond the hyperframe up to 2^32; _pnm for |MA| 0..139 and larger; "
+                 "histories (hop.seq) of enable_fh / disable_fh / look-ups on ONE Transceiver object (re-configuration without power-off, "
+                 "different |MA| and NBIN between configurations); "
                  "firmware: rfch_get_params via gsm_fn2gsmtime and with raw (also inconsistent) struct gsm_time contents, every "
                  "dedicated channel type, h in {0,1,2,255}, uint8 wrap of hsn/maio/n, ARFCNs up to 65535 (int16 wrap), "
                  "rfch_hop_seq_gen(NULL table), pow_nbin_mask 0..255; a case is a distinct request line")
@@ -265,6 +267,84 @@ def correspond_py(run, corr, rng, n_py):
     for r, a in zip(preqs, pimpl):
         corr.count(r, r.split()[0] + ":" + ("exc" if "EXC" in a else "ok"))
     return [{"request": r[:160], "impl": a, "model": b} for r, a, b in list(zip(preqs, pimpl, pmodel))[:3]]
+
+
+def gen_seq(rng, clean=False):
+    """a history on ONE Transceiver object: enable_fh (re-configuration without power-off included), disable_fh,
+    get_rx_freq/get_tx_freq; clean=True keeps every enable_fh inside the property's domain"""
+    rx0 = rng.choice(["None", str(rng.randrange(0, 2 * 10 ** 9))])
+    tx0 = rng.choice(["None", str(rng.randrange(0, 2 * 10 ** 9))])
+    ops = []
+    for _ in range(rng.randint(3, 12)):
+        r = rng.random()
+        if r < 0.35:
+            wide = (not clean) and rng.random() < 0.15
+            n = gen_n(rng, wide)
+            if clean:
+                n = min(max(n, 1), 64)
+            hsn = gen_hsn(rng, wide)
+            maio = gen_maio(rng, n, wide)
+            if clean:
+                hsn, maio = min(max(hsn, 0), 63), min(max(maio, 0), 63)
+            ops.append("E %d %d %s" % (hsn, maio, fmt_pairs(gen_py_ma(rng, n))))
+        elif r < 0.42:
+            ops.append("D")
+        else:
+            ops.append("Q %d" % (gen_fn(rng, False) % H))
+    return "hop.seq %s %s | %s" % (rx0, tx0, " ; ".join(ops))
+
+
+def correspond_seq(run, corr, rng, n_seq):
+    reqs = [gen_seq(rng) for _ in range(n_seq)]
+    impl = vf.run_lines(py_cmd(), reqs)
+    model = vf.run_driver(reqs)
+    corr.compare(reqs, impl, model)
+    for r, a in zip(reqs, impl):
+        corr.count(r, "hop.seq:" + ("exc" if "EXC" in a else "ok"))
+    return [{"request": r[:160], "impl": a[:160], "model": b[:160]} for r, a, b in list(zip(reqs, impl, model))[:1]]
+
+
+def oracle_seq(run, count):
+    """histories of enable_fh / disable_fh / get_*_freq on one Transceiver: every look-up must follow the parameters of
+    the LAST enable_fh (TS 45.002 6.2.3), or the fixed frequencies while hopping is disabled"""
+    rng = run.rng
+    reqs = [gen_seq(rng, clean=True) for _ in range(count)]
+    out = vf.run_lines(py_cmd(), reqs)
+    for r, a in zip(reqs, out):
+        w = judge_seq(r, a)
+        if w:
+            return [w]
+    return []
+
+
+def judge_seq(req, ans):
+    head, ops = req.split(" | ")
+    _, rx0, tx0 = head.split()
+    cur = None
+    got = ans.split()
+    ops = ops.split(" ; ")
+    if len(got) != len(ops):
+        return {"kind": "py-seq", "request": req, "impl": ans, "spec": "one answer per operation"}
+    for i, (o, a) in enumerate(zip(ops, got)):
+        t = o.split()
+        if t[0] == "E":
+            ma = [tuple(int(x) for x in p.split(":")) for p in t[3].split(",")]
+            want = "ok"
+            cur = (int(t[1]), int(t[2]), ma)
+        elif t[0] == "D":
+            want = "-"
+            cur = None
+        else:
+            fn = int(t[1])
+            if cur is None:
+                want = "%s/%s" % (rx0, tx0)
+            else:
+                hsn, maio, ma = cur
+                want = "%d/%d" % ma[spec_mai(hsn, maio, len(ma), fn)]
+        if a != want:
+            return {"kind": "py-seq", "request": req, "op_index": i, "op": o, "impl": a, "spec": want,
+                    "params_in_force": None if cur is None else {"hsn": cur[0], "maio": cur[1], "n": len(cur[2])}}
+    return None
 
 
 def correspond_fw(run, corr, rng, n_fw):
@@ -544,6 +624,9 @@ def search(run, corr, deep):
     # 4. per-frame Rx/Tx frequency
     for w in guarded(oracle_freq, run, 4000 if full else 600) or []:
         found += report_once(run, w)
+    # 5. histories on one Transceiver object (re-configuration)
+    for w in guarded(oracle_seq, run, 3000 if full else 400) or []:
+        found += report_once(run, w)
     corr.evaluations += combos + cnt
     corr.exhaustive = bool(full)
     corr.notes.append("oracle = the check's own transcription of TS 45.002 6.2.3 (cross-checked against the Lean Spec on 3000 inputs)")
@@ -560,6 +643,13 @@ def replay(run, path):
         w = v.get("witness")
         if not w:
             print("replay: no concrete input recorded (%s)" % json.dumps(v.get("broken"))[:600])
+            continue
+        if w["kind"] == "py-seq":
+            got = vf.run_lines(py_cmd(), [w["request"]])[0]
+            j = judge_seq(w["request"], got)
+            print("replay py-seq %s: impl=%s  %s" % (w["request"][:300], got[:200],
+                  "still fails at op %s: impl=%s standard=%s" % (j.get("op"), j["impl"], j["spec"]) if j else "passes now"))
+            bad += bool(j)
             continue
         hsn, maio, n, fn = w["hsn"], w["maio"], w["n"], w["fn"]
         mai = spec_mai(hsn, maio, n, fn)
